@@ -249,6 +249,14 @@ def _dbcs_range_and_page_switch(ctx, rep):
 
 
 def check(ctx, rep):
+    # a scroll is sent to the display after everything written before it: the pending dirty rectangles are flushed first
+    for meth in ('scroll_up', 'scroll_down'):
+        fn = ctx.fn('pcbasic/basic/display/buffers.py:VideoBuffer.' + meth)
+        fl_ = [c for c in own_nodes(fn) if isinstance(c, ast.Call) and norm(c.func) == 'self.force_submit']
+        sg = [c for c in own_nodes(fn) if isinstance(c, ast.Call) and norm(c.func) == 'signals.Event' and c.args and norm(c.args[0]) == 'signals.VIDEO_SCROLL']
+        rep.ob('scroll.pending-updates-flushed-first', 'VideoBuffer.%s flushes pending updates before it signals the scroll' % meth,
+               len(fl_) == 1 and len(sg) == 1 and fl_[0].lineno < sg[0].lineno,
+               'text written just before the scroll reaches the display after it, one row off', ctx.where(fn))
     _geometry(ctx, rep)
     _dbcs_range_and_page_switch(ctx, rep)
     _scroll_bookkeeping(ctx, rep)
@@ -366,6 +374,8 @@ def variants(ctx):
         return lambda tree: f(mu.find_def(tree, f_name))
 
     return [
+        mu.Variant('scroll-signalled-before-pending-updates', 'break', 'pcbasic/basic/display/buffers.py',
+                   lambda tree: _flush_after_signal(mu.find_def(tree, 'VideoBuffer.scroll_up')), expect='scroll.pending-updates-flushed-first'),
         mu.Variant('dbcs-redraw-range-not-extended-left', 'break', 'pcbasic/basic/display/buffers.py',
                    lambda tree: mu.replace_expr(mu.find_def(tree, 'VideoBuffer._refresh_dbcs'), mu.text_is('min(start, orig_start)'), 'orig_start'), expect='dbcs.redraw-range-extends-both-ways'),
         mu.Variant('page-numbers-stored-before-old-page-hidden', 'break', 'pcbasic/basic/display/display.py',
@@ -431,5 +441,15 @@ def _store_first(fn):
         fn.body.remove(x)
     i = fn.body.index(tr[0])
     fn.body[i:i] = st
+    return True
+
+
+def _flush_after_signal(fn):
+    fl = [st for st in fn.body if norm(st) == 'self.force_submit()']
+    sg = [st for st in fn.body if isinstance(st, ast.If) and 'VIDEO_SCROLL' in norm(st)]
+    if len(fl) != 1 or len(sg) != 1:
+        return False
+    fn.body.remove(fl[0])
+    fn.body.insert(fn.body.index(sg[0]) + 1, fl[0])
     return True
 
